@@ -345,7 +345,10 @@ func grpcExtractResponseMeta(contentTypeShort, contentTypePrefix string, statusC
 			code := httpStatusCodeToRPC(statusCode)
 			respMeta.end.err = connect.NewError(code, fmt.Errorf("unexpected HTTP error: %d %s", statusCode, http.StatusText(statusCode)))
 		}
-		respMeta.end.trailers = httpExtractTrailers(headers, nil)
+		if respMeta.end.trailers == nil {
+			// (if the status was in the headers, the trailers were already extracted above)
+			respMeta.end.trailers = httpExtractTrailers(headers, nil)
+		}
 	}
 	return respMeta
 }
